@@ -438,6 +438,24 @@ impl<'a, T: Read + Write + Seek> PointCloudWriter<'a, T> {
                 ))?
             }
 
+            // Ensure that integer values are inside the range of the prototype entry.
+            // Values outside cannot be represented with the bits reserved for the
+            // record and would corrupt the following values in the same byte stream.
+            match (&p.data_type, value) {
+                (RecordDataType::Integer { min, max }, RecordValue::Integer(int))
+                | (
+                    RecordDataType::ScaledInteger { min, max, .. },
+                    RecordValue::ScaledInteger(int),
+                ) => {
+                    if int < min || int > max {
+                        Error::invalid(format!(
+                            "Value {int} at index {i} is outside the range {min}..={max} of the prototype"
+                        ))?
+                    }
+                }
+                _ => {}
+            }
+
             // Update cartesian bounds
             if p.name == RecordName::CartesianX
                 || p.name == RecordName::CartesianY
